@@ -5,6 +5,7 @@ import (
 	"strings"
 
 	"cosmossdk.io/client/v2/autocli"
+	"cosmossdk.io/client/v2/autocli/flag"
 	"cosmossdk.io/depinject"
 	"cosmossdk.io/log"
 	"github.com/cosmos/cosmos-sdk/client"
@@ -19,6 +20,8 @@ import (
 	"github.com/cosmos/cosmos-sdk/x/auth/types"
 	"github.com/spf13/cobra"
 	"github.com/spf13/pflag"
+	"google.golang.org/grpc"
+	"google.golang.org/protobuf/reflect/protoregistry"
 
 	"github.com/tendermint/fundraising/app"
 )
@@ -94,7 +97,24 @@ func NewRootCmd() *cobra.Command {
 		flags.FlagKeyringBackend: "test",
 	})
 
-	if err := autoCliOpts.EnhanceRootCommand(rootCmd); err != nil {
+	// the builder autocli would use itself, plus a flag type that lets decimal numbers be typed as decimal numbers
+	builder := &autocli.Builder{
+		Builder: flag.Builder{
+			TypeResolver:          protoregistry.GlobalTypes,
+			FileResolver:          autoCliOpts.ClientCtx.InterfaceRegistry,
+			AddressCodec:          autoCliOpts.AddressCodec,
+			ValidatorAddressCodec: autoCliOpts.ValidatorAddressCodec,
+			ConsensusAddressCodec: autoCliOpts.ConsensusAddressCodec,
+		},
+		GetClientConn: func(cmd *cobra.Command) (grpc.ClientConnInterface, error) {
+			return client.GetClientQueryContext(cmd)
+		},
+		AddQueryConnFlags: flags.AddQueryFlagsToCmd,
+		AddTxConnFlags:    flags.AddTxFlagsToCmd,
+	}
+	builder.DefineScalarFlagType(decimalScalar, decimalType{})
+
+	if err := autoCliOpts.EnhanceRootCommandWithBuilder(rootCmd, builder); err != nil {
 		panic(err)
 	}
 
